@@ -1,6 +1,7 @@
 import Rio.Spec.TreeHash
 import Rio.Model.Tar
 import Rio.Proofs.Sort
+import Rio.Proofs.HashRefine
 /-!
 # C05 — WareID follows the frozen tree-hash format
 
@@ -43,5 +44,44 @@ set_option maxRecDepth 8000 in
 /-- the `trick`/`tricky` trap (iterator nesting ≠ directory nesting), a *test* on one literal tree:
     implementation model = specification, for the identity "hash", records in reverse order. -/
 example : (hashBucket id (flatten trickTree).reverse).toOption = some (specId id trickTree) := by decide
+
+
+/-- **Refinement: the implementation computes the frozen format.**  For every hash function `H`, every
+    well-formed fileset tree `t` (`WFRoot`: bucket keys nest like the directories, siblings in key order, only
+    directories have children) and every order `recs` in which its records may be added to the bucket (walk
+    order, readdir order, archive entry order), the model of `fshash.HashBucket` — sort, iterator frames that
+    linger, lazily closed directory hashers — returns exactly the recursive specification `specHash`:
+    `H({"m": meta, "l": [hash(child) …]})` for directories, `H({"m": meta, "h": contentHash})` for files.
+    Proof: `Rio/Proofs/HashRefine.lean` (eager/lazy machine equivalence, then mutual recursion over the tree). -/
+theorem C05_refine (H : Bytes → Bytes) (t : Tree) (hwf : WFRoot t) (recs : List Record)
+    (hp : recs.Perm (flatten t)) : hashBucket H recs = .ok (specId H t) :=
+  hashBucket_refines H t hwf recs hp
+
+/-- the tree hash is therefore unchanged by anything that leaves the tree unchanged: two record orders of the
+    same tree give the same id -/
+theorem C05_order_free (H : Bytes → Bytes) (t : Tree) (hwf : WFRoot t) (r₁ r₂ : List Record)
+    (h₁ : r₁.Perm (flatten t)) (h₂ : r₂.Perm (flatten t)) : hashBucket H r₁ = hashBucket H r₂ := by
+  rw [C05_refine H t hwf r₁ h₁, C05_refine H t hwf r₂ h₂]
+
+/-- a well-formed tree never makes `HashBucket` panic -/
+theorem C05_wf_no_panic (H : Bytes → Bytes) (t : Tree) (hwf : WFRoot t) (recs : List Record)
+    (hp : recs.Perm (flatten t)) : ∀ p, hashBucket H recs ≠ .error p := by
+  intro p; rw [C05_refine H t hwf recs hp]; exact fun h => by cases h
+
+/-- non-vacuity: the `trick`/`tricky` tree is well-formed in the sense of the theorem -/
+example : WFRoot trickTree := by
+  refine ⟨rfl, Or.inl ⟨rfl, rfl, ?_⟩⟩
+  unfold WFF
+  refine ⟨?_, by unfold WFF; trivial, by simp [rootKeys]⟩
+  unfold WFT
+  refine ⟨[0x65], by simp, by simp [slash], Or.inl ⟨rfl, by decide, ?_⟩⟩
+  unfold WFF
+  refine ⟨?_, ?_, by decide⟩
+  · unfold WFT
+    exact ⟨[0x74], by simp, by simp [slash], Or.inr ⟨by decide, by decide, rfl⟩⟩
+  · unfold WFF
+    refine ⟨?_, by unfold WFF; trivial, by simp [rootKeys]⟩
+    unfold WFT
+    exact ⟨[0x74, 0x79], by simp, by simp [slash], Or.inr ⟨by decide, by decide, rfl⟩⟩
 
 end Rio
